@@ -4,16 +4,20 @@ from ..flow import resolver, peel, guards_of, rel_fact, aggregates, show, edge_f
 from ..symexec import SymExec, variant_name
 from ..facts import AnchorMissing, op_const_int
 
-LEVEL = ("decides: every unsigned difference in the MaxSAT bound encoder and linear search is "
-         "protected by a comparison of the same two quantities whose `a < b` outcome never reaches it "
-         "(also one call level up), or has a table entry with its arithmetic argument (W1); "
-         "MaxSatOptimisationResult::Optimal is produced only when the incumbent equals the constant "
-         "term, the bound encoder reports an error, or the solve under the tightened bound is "
-         "unsatisfiable, and an interrupted solve yields Satisfiable(best) (W2); the soft-clause → "
-         "objective table of the sink (empty / satisfied / unit / general) and the sign convention of "
-         "Function::add_weighted_literal / evaluate_assignment (W3); no field is accumulated inside a "
-         "re-entered inner loop (W4); no variable is created after a hard clause made the solver "
-         "infeasible (W5). Does not decide the correctness of the two encodings")
+LEVEL = ('decides: every unsigned difference in the MaxSAT bound encoder and linear search is '
+         'protected by a comparison of the same two quantities whose `a < b` outcome never reaches it '
+         '(also one call level up), or has a table entry with its arithmetic argument (W1); '
+         'MaxSatOptimisationResult::Optimal is produced only when the incumbent equals the constant '
+         'term, the bound encoder reports an error, or the solve under the tightened bound is '
+         'unsatisfiable, and an interrupted solve yields Satisfiable(best) (W2); the soft-clause → '
+         'objective table of the sink (empty / satisfied / unit / general) and the sign convention of '
+         'Function::add_weighted_literal / evaluate_assignment (W3); no field is accumulated inside a '
+         're-entered inner loop (W4); no variable is created after a hard clause made the solver '
+         'infeasible (W5). an aggregate over a whole collection is not re-added to a field on every '
+         'round of a loop (W4b); the root-satisfaction test of a soft clause sees the whole mapped '
+         'clause (W6); encoder loops that post clauses are left only by exhaustion, error or panic — '
+         'data-dependent early exits need a table entry (W7). Does not decide the correctness of the '
+         'two encodings')
 TECHNIQUE = "static analysis: guarded-subtraction, dominance, symbolic table recovery and loop-nesting rules over rustc MIR"
 
 # unsigned differences with an arithmetic (not comparison-shaped) safety argument
